@@ -13,6 +13,7 @@ import (
 	"reduction.dev/reduction/storage/snapshots"
 	"verif/cluster"
 	"verif/lib"
+	"verif/ophar"
 )
 
 // requestSavepoint: the job refuses savepoints unless it is Running (a user retries); after a restart the
@@ -357,6 +358,19 @@ func c14Run(c *lib.Ctx, scaleDown bool) {
 		if done && !artifact() {
 			c.Fail("savepoint-never-written", x.wit(), "savepoint %d was requested and its checkpoint acknowledged by every member; the asynchronous publication of checkpoint %d has ended (error: %v) and the savepoint artifact does not exist (job errors %v)", spID, spID, perr, x.cl.JobErrors())
 		}
+		// a logical verdict before the watchdog: a checkpoint completes inside the call that delivers the last
+		// acknowledgement. Every member's acknowledgement accepted and the checkpoint still in progress = the savepoint
+		// request disturbed the running job (nothing can complete it any more, and no other checkpoint can start)
+		accepted := x.cl.AcksAccepted(spID) // read before the pending checkpoint: an acknowledgement accepted by now has been counted
+		if p := x.cl.Job.VerifPendingSnapshot(); p != nil && p.ID == spID && len(p.WaitingFor) > 0 {
+			lost := true
+			for _, n := range p.WaitingFor {
+				lost = lost && accepted[n]
+			}
+			if lost {
+				c.Fail("checkpoint-stuck-after-savepoint-request", x.wit(), "savepoint %d: checkpoint %d is still in progress and waits for %v, whose acknowledgements the job has already accepted: they were dropped, the checkpoint can never complete and no further checkpoint can start", spID, spID, p.WaitingFor)
+			}
+		}
 		if time.Now().After(deadline) {
 			c.Inconclusive("the publication of savepoint %d did not end within the watchdog (job errors %v)", spID, x.cl.JobErrors())
 		}
@@ -385,101 +399,168 @@ func c14Run(c *lib.Ctx, scaleDown bool) {
 		os.RemoveAll(d)
 	}
 	x.logf("all workers and the job killed; working storage and job checkpoints deleted")
+	// restoreFrom starts a new job from a savepoint URI (all working storage is gone) with the given worker count and
+	// checks that it deploys and that every split resumes from the position recorded in the savepoint's checkpoint.
+	restoreFrom := func(prev *run, spID uint64, spURI string, cut map[string]ophar.KeyShadow, o2 runOpts, limit int) *run {
+		y := newRun(c, o2)
+		y.keys = prev.keys
+		y.log = prev.log
+		y.src = cluster.NewVSource(o.splits, o.perSplit, o.tsMode, x.chunk)
+		y.src.SetLimit(limit)
+		cfg := prev.cl.Cfg
+		cfg.Workers = o2.workers
+		cfg.Source = y.src
+		cfg.SavepointURI = spURI
+		cfg.Batch = batching.EventBatcherParams{MaxSize: o.maxSize, MaxDelay: o.maxDelay}
+		y.cl = cluster.New(cfg)
+		y.cl.ContinueNamesOf(prev.cl)
+		y.cl.SetChecks(exactlyOnceCheck)
+		y.installCutRecorder()
+		y.cl.TimerFn = prev.cl.TimerFn
+		y.cuts = prev.cuts
+		y.cl.Store.Reset(cut)
+		c.OnPanic = func() any { return y.wit() }
+		y.logf("new job from savepoint %d with %d workers (was %d)", spID, o2.workers, prev.o.workers)
+		if err := y.cl.StartJob(); err != nil {
+			c.Fail("savepoint-restore-error", y.wit(), "jobs.New from the savepoint URI: %v", err)
+		}
+		for i := 0; i < o2.workers; i++ {
+			y.cl.AddWorker()
+		}
+		// every worker of the new job is alive: a Deploy that fails means the operator cannot open its database from what
+		// the savepoint restored
+		stopWatch := make(chan struct{})
+		deployFailed := make(chan string, 1)
+		go func() {
+			for {
+				select {
+				case <-stopWatch:
+					return
+				case <-time.After(500 * time.Microsecond):
+				}
+				for _, d := range y.cl.Deploys() {
+					if d.Err != nil && !d.DeadNode {
+						select {
+						case deployFailed <- fmt.Sprintf("%s %s: %v", d.Kind, d.Node, d.Err):
+						default:
+						}
+						return
+					}
+				}
+			}
+		}()
+		assigned := make(chan struct{})
+		go func() {
+			defer func() { recover() }()
+			for {
+				n := 0
+				for _, a := range y.src.Assignments() {
+					if a.Splitter >= 1 {
+						n++
+					}
+				}
+				if n >= o.splits {
+					close(assigned)
+					return
+				}
+				select {
+				case <-stopWatch:
+					return
+				case <-time.After(300 * time.Microsecond):
+				}
+			}
+		}()
+		select {
+		case <-assigned:
+		case why := <-deployFailed:
+			close(stopWatch)
+			c.Fail("savepoint-restore-error", y.wit(), "the job started from savepoint %d cannot deploy: Deploy of %s (working storage was deleted; only the savepoint exists)", spID, why)
+		case <-time.After(cluster.Watchdog):
+			close(stopWatch)
+			c.Inconclusive("splits were not assigned within the watchdog after the restore from savepoint %d (job errors: %v; goroutines: %s)", spID, y.cl.JobErrors(), lib.BlockedSummary())
+		}
+		close(stopWatch)
+		// source positions: every split resumes from the position recorded in the savepoint's checkpoint
+		want := map[string]int{}
+		for _, a := range prev.cl.SRAcks() {
+			if a.ID == spID {
+				for s, p := range a.Pos {
+					want[fmt.Sprint(s)] = p
+				}
+			}
+		}
+		for _, a := range y.src.Assignments() {
+			if p, ok := want[a.SplitID]; ok && (!a.HasCursor || a.Cursor != p) {
+				c.Fail("savepoint-source-position", y.wit(), "after the restore split %s resumes from cursor %d (has cursor: %v), checkpoint %d recorded position %d", a.SplitID, a.Cursor, a.HasCursor, spID, p)
+			}
+		}
+		return y
+	}
 	// phase 2: a new job from the savepoint URI, same or different worker count
 	o2 := o
 	if r.Intn(2) == 0 {
 		o2.workers = 1 + r.Intn(4)
 	}
-	y := newRun(c, o2)
-	defer y.close()
-	y.keys = x.keys
-	y.log = x.log
-	y.src = cluster.NewVSource(o.splits, o.perSplit, o.tsMode, x.chunk)
-	cfg := x.cl.Cfg
-	cfg.Workers = o2.workers
-	cfg.Source = y.src
-	cfg.SavepointURI = spURI
-	cfg.Batch = batching.EventBatcherParams{MaxSize: o.maxSize, MaxDelay: o.maxDelay}
-	y.cl = cluster.New(cfg)
-	y.cl.ContinueNamesOf(x.cl)
-	y.cl.SetChecks(exactlyOnceCheck)
-	y.cl.TimerFn = x.cl.TimerFn
-	y.cuts = x.cuts
-	y.cl.Store.Reset(cut)
-	c.OnPanic = func() any { return y.wit() }
-	y.logf("new job from savepoint %d with %d workers (was %d)", spID, o2.workers, o.workers)
-	if err := y.cl.StartJob(); err != nil {
-		c.Fail("savepoint-restore-error", y.wit(), "jobs.New from the savepoint URI: %v", err)
+	// two in five runs chain a second savepoint: the job started from the first savepoint processes part of the
+	// remaining input, takes some periodic checkpoints and a savepoint of its own; everything is deleted again and a
+	// third job starts from the second savepoint
+	chain := r.Intn(5) < 2
+	limit := o.perSplit
+	if chain {
+		limit = min(o.perSplit, p2+3+r.Intn(15))
 	}
-	for i := 0; i < o2.workers; i++ {
-		y.cl.AddWorker()
-	}
-	// every worker of the new job is alive: a Deploy that fails means the operator cannot open its database from what
-	// the savepoint restored
-	stopWatch := make(chan struct{})
-	deployFailed := make(chan string, 1)
-	go func() {
-		for {
-			select {
-			case <-stopWatch:
-				return
-			case <-time.After(500 * time.Microsecond):
-			}
-			for _, d := range y.cl.Deploys() {
-				if d.Err != nil && !d.DeadNode {
-					select {
-					case deployFailed <- fmt.Sprintf("%s %s: %v", d.Kind, d.Node, d.Err):
-					default:
-					}
-					return
+	y := restoreFrom(x, spID, spURI, cut, o2, limit)
+	defer func() { y.close() }()
+	if chain {
+		y.waitCaughtUp()
+		// periodic checkpoints first: 0..2, or as many as the first job had taken before its savepoint (the second
+		// savepoint is then this job's N-th checkpoint, like the first one was the first job's N-th)
+		k := r.Intn(3)
+		if spID >= 1 && spID <= 7 && r.Intn(4) > 0 {
+			k = int(spID) - 1
+		}
+		for i := k; i > 0; i-- {
+			y.checkpoint(10 * time.Second)
+		}
+		y.waitCaughtUp()
+		sp2, err := y.requestSavepoint()
+		if err != nil {
+			c.Fail("savepoint-request-error", y.wit(), "HandleCreateSavepoint in the job started from savepoint %d: %v", spID, err)
+		}
+		var uri2 string
+		for deadline := time.Now().Add(cluster.Watchdog); uri2 == ""; {
+			if u, e2 := y.cl.Job.HandleGetSavepointURI(context.Background(), sp2); e2 == nil {
+				if _, e3 := os.Stat(u); e3 == nil {
+					uri2 = u
+					break
 				}
 			}
-		}
-	}()
-	assigned := make(chan struct{})
-	go func() {
-		defer func() { recover() }()
-		for {
-			n := 0
-			for _, a := range y.src.Assignments() {
-				if a.Splitter >= 1 {
-					n++
-				}
+			if time.Now().After(deadline) {
+				c.Inconclusive("the second savepoint (%d) was not written within the watchdog (job errors %v)", sp2, y.cl.JobErrors())
 			}
-			if n >= o.splits {
-				close(assigned)
-				return
-			}
-			select {
-			case <-stopWatch:
-				return
-			case <-time.After(300 * time.Microsecond):
-			}
+			time.Sleep(300 * time.Microsecond)
 		}
-	}()
-	select {
-	case <-assigned:
-	case why := <-deployFailed:
-		close(stopWatch)
-		c.Fail("savepoint-restore-error", y.wit(), "the job started from savepoint %d cannot deploy: Deploy of %s (working storage was deleted; only the savepoint exists)", spID, why)
-	case <-time.After(cluster.Watchdog):
-		close(stopWatch)
-		c.Inconclusive("splits were not assigned within the watchdog after the restore from savepoint %d (job errors: %v; goroutines: %s)", spID, y.cl.JobErrors(), lib.BlockedSummary())
-	}
-	close(stopWatch)
-	// source positions: every split resumes from the position recorded in the savepoint's checkpoint
-	want := map[string]int{}
-	for _, a := range x.cl.SRAcks() {
-		if a.ID == spID {
-			for s, p := range a.Pos {
-				want[fmt.Sprint(s)] = p
-			}
+		y.logf("second savepoint %d at %s (taken by the job that was started from savepoint %d)", sp2, uri2, spID)
+		y.checkHandlers()
+		y.cl.Lock()
+		cut2, ok2 := y.cuts[sp2]
+		y.cl.Unlock()
+		if !ok2 {
+			c.Fail("savepoint-without-acks", y.wit(), "savepoint %d exists but the operators never acknowledged checkpoint %d", sp2, sp2)
 		}
-	}
-	for _, a := range y.src.Assignments() {
-		if p, ok := want[a.SplitID]; ok && (!a.HasCursor || a.Cursor != p) {
-			c.Fail("savepoint-source-position", y.wit(), "after the restore split %s resumes from cursor %d (has cursor: %v), checkpoint %d recorded position %d", a.SplitID, a.Cursor, a.HasCursor, spID, p)
+		y.close()
+		lib.GCSettle()
+		for _, d := range []string{filepath.Join(c.Dir, "work"), filepath.Join(c.Dir, "job", "checkpoints")} {
+			os.RemoveAll(d)
 		}
+		y.logf("all workers and the job killed again; working storage and job checkpoints deleted")
+		o3 := o2
+		if r.Intn(2) == 0 {
+			o3.workers = 1 + r.Intn(4)
+		}
+		y = restoreFrom(y, sp2, uri2, cut2, o3, o.perSplit)
+		spID = sp2
+		c.Feat("chained_second_savepoints", 1)
 	}
 	y.waitCaughtUp()
 	if !y.waitApplied(o.perSplit, cluster.Watchdog) {
